@@ -687,7 +687,7 @@ def gen_runs(rng, n, mode):
                              "key_order": rng.choice(["current-first", "deprecated-first"])}
         case = {"stream": f"run-{mode}", "id": i, "mode": mode, "save": save, **extra, "a": a, "b": b,
                 "readouts": rng.choice([1, 1, 2]), "prefix": prefix,
-                "starts": rng.choice([1, 1, 2, 3]) if mode != "parallel" else (1 if extra.get("plant") else rng.choice([1, 2])),
+                "starts": rng.choice([1, 1, 2, 3]) if mode != "parallel" else (1 if (extra.get("plant") or extra.get("noise")) else rng.choice([1, 2])),
                 "pre": gen_pre(rng, [prefix])}
         cases.append(case)
     return cases
@@ -761,7 +761,7 @@ def gen_plans(rng, n):
     for i in range(n):
         mode = ["exposure", "parallel", "sequential", "parallel"][i % 4]
         base = gen_runs(rng, 1, mode)[0]
-        for k in ("plant", "computes"):
+        for k in ("plant", "computes", "noise"):  # several starts: every start is judged on the deterministic expectation
             base.pop(k, None)
         nstart = rng.choice([2, 2, 3])
         if rng.random() < 0.7:
